@@ -78,7 +78,7 @@ type caseData struct {
 func genCases(seed int64, tier string) []core.Case {
 	n := 480
 	if tier == "thorough" {
-		n = 6000
+		n = 24000
 	}
 	rng := rand.New(rand.NewSource(seed*104729 + 2))
 	var out []core.Case
